@@ -435,13 +435,14 @@ Definition fill_ev fl (v : evd) : evd :=
 
 Definition on_snd {A B C} (f : B -> C) (p : A * B) : A * C := (fst p, f (snd p)).
 
-(* the operation root types: the schema block if there is one, else the conventional names *)
+(* the operation root types: the schema block if there is one, else the conventional names (whatever
+   kind of type carries the name: the rules ggql enforces do not ask for an object type there) *)
 Definition op_roots (st : list item) : list (nat * nat) :=
   let fl := flatten st in
   if existsb (fun b => kind_eqb (b_kind b) KSchema) (fl_bases fl) then
     map (fun f => (fd_name f, tbase (f_ty f))) (fields_of fl (2, 0))
   else
-    flat_map (fun p => if has_kind fl KObject (snd p) then [p] else []) [(1, 10); (2, 11); (3, 12)].
+    flat_map (fun p => if type_defined fl (snd p) then [p] else []) [(1, 10); (2, 11); (3, 12)].
 
 Record view := {
   v_defs : list bdef;
